@@ -51,6 +51,12 @@ def obligations(tier):
            bounds="10 programmatic object paths (list/reference/basic components, names needing quotes, string lhs) x NOT x 3 wrappers"),
         CH("programmatic_reuse", H, "programmatic_reuse", t, mode="E1s", functions=["stix2.patterns._BooleanExpression.__init__",
            "stix2.patterns.ParentheticalExpression.__init__"], bounds="a shared parenthetical OR used in two AND/OR expressions x 3^4 object types"),
+        CH("whole_expression_in_parentheses", H, "whole_group", t, mode="E1s", functions=FV + FP + ["stix2.pattern_visitor.STIXPatternVisitorForSTIX2.visitPropTestParen"], stubs=[ANTLR],
+           bounds="8 shapes where the whole comparison expression of an observation is one (doubly) parenthesised group, bare or qualified or combined x AND/OR x atoms x NOT "
+                  "x parsed / re-assembled from the model classes"),
+        CH("caller_supplied_node_classes", H, "override_classes", t, mode="E1s", functions=["stix2.pattern_visitor.STIXPatternVisitorForSTIX2.instantiate",
+           "stix2.pattern_visitor.STIXPatternVisitorForSTIX2.get_class", "stix2.patterns.StringConstant.__init__"], stubs=[ANTLR],
+           bounds="8 patterns with strings needing escapes, binary/hex constants and quoted/indexed steps, parsed with module_suffix/module_name overrides for 10 node classes"),
         CH("exists_comparison", H, "exists_test", t, mode="E1s", functions=FV[-2:], stubs=[ANTLR], finding="C10-exists", bounds="[NOT] EXISTS x 3 paths"),
         JOB("path_step_quoting_rule", "props.j_regex", "job_path_step", 120, engine="re2z3", functions=FP[6:7],
             bounds="all strings: printed bare iff in the grammar's IdentifierWithoutHyphen (regex inclusion both ways)"),
